@@ -6,6 +6,7 @@ import (
 	"encoding/json"
 	"fmt"
 	"math/rand"
+	"os"
 
 	"verifharness/pkg/emit"
 )
@@ -13,14 +14,26 @@ import (
 func init() { register("C06", c06Run) }
 
 type c06In struct {
-	Cfg   c06Cfg     `json:"cfg"`
-	Subj  c06Subject `json:"subject"`
-	Steps []c06Hop   `json:"steps"`
+	Cfg     c06Cfg     `json:"cfg"`
+	Subj    c06Subject `json:"subject"`
+	Steps   []c06Hop   `json:"steps"`
+	Backend string     `json:"backend,omitempty"` // "" = in-memory double, "filestorage" = the real FileStorage on a temp directory
 }
 
 // c06RunCase runs one history on the real code and emits the case.
 func c06RunCase(w *emit.Writer, in c06In, origin string) {
 	bw := c06NewWorld(in.Cfg, in.Subj)
+	var fw *c07FSWorld
+	if in.Backend == "filestorage" {
+		dir, err := os.MkdirTemp("", "c06fs-")
+		if err != nil {
+			w.Meta.Notes = append(w.Meta.Notes, "filestorage history skipped: "+err.Error())
+			return
+		}
+		defer os.RemoveAll(dir)
+		fw = c07NewFSWorld(in.Cfg, in.Subj, dir)
+		bw = fw.c06World
+	}
 	e := &emit.Enc{}
 	c06EncCfg(e, in.Cfg)
 	bw.encSubject(e)
@@ -29,6 +42,7 @@ func c06RunCase(w *emit.Writer, in c06In, origin string) {
 	class := "history"
 	issuances := 0
 	opsSeen := map[string]bool{}
+	symptom := "none"
 	fwd, fwdSteps := true, 0
 	var prevSt []c06Entry
 	for si := range in.Steps {
@@ -51,7 +65,12 @@ func c06RunCase(w *emit.Writer, in c06In, origin string) {
 				fwdSteps++
 			}
 		}
-		o := bw.runHop(*h, nil, true)
+		var o c06Obs
+		if fw != nil {
+			o, _ = fw.runLocal(*h, true)
+		} else {
+			o = bw.runHop(*h, nil, true)
+		}
 		prevSt = o.stEnc
 		if in.Cfg.Rnd {
 			h.Orc.Perm = c06CompletePerm(in.Cfg.N, o)
@@ -65,6 +84,15 @@ func c06RunCase(w *emit.Writer, in c06In, origin string) {
 				issuances++
 			}
 		}
+		// symptom of the spelling finding: something was issued and saved in this step, yet a load
+		// with the requested spelling says "does not exist" (saved under another directory)
+		if bw.sLoad != bw.sSave && o.ProbeRes == 1 {
+			for _, ev := range o.logEnc {
+				if ev[0] == 1 && ev[3] == 1 {
+					symptom = "issued-but-reload-does-not-exist"
+				}
+			}
+		}
 		opsSeen[h.Op] = true
 		w.Hist("op=" + h.Op)
 		w.Hist(fmt.Sprintf("op_res=%s/%d", h.Op, o.Res))
@@ -76,6 +104,12 @@ func c06RunCase(w *emit.Writer, in c06In, origin string) {
 	w.Hist("keytype=" + in.Cfg.KeyType)
 	w.Hist(fmt.Sprintf("issuances=%d", min(issuances, 6)))
 	w.Hist("class=" + class)
+	w.Hist("symptom=" + symptom)
+	if in.Backend == "" {
+		w.Hist("backend=memory")
+	} else {
+		w.Hist("backend=" + in.Backend)
+	}
 	w.Hist(fmt.Sprintf("forward_history=%v", fwd))
 	w.Hist(fmt.Sprintf("forward_prefix_ops=%d", min(fwdSteps, 6)))
 	for _, n := range bw.oracleNotes {
@@ -84,7 +118,8 @@ func c06RunCase(w *emit.Writer, in c06In, origin string) {
 	key, _ := json.Marshal(in)
 	w.Add(emit.Case{
 		Desc: map[string]any{"class": class, "subject_kind": in.Subj.Kind, "issuers": in.Cfg.N, "reuse": in.Cfg.Reuse,
-			"policy_random": in.Cfg.Rnd, "keytype": in.Cfg.KeyType, "origin": origin, "steps": len(in.Steps)},
+			"policy_random": in.Cfg.Rnd, "keytype": in.Cfg.KeyType, "origin": origin, "steps": len(in.Steps),
+			"spelling_dirs_differ": bw.sLoad != bw.sSave, "symptom": symptom, "backend": in.Backend},
 		In: in, Obs: obsAll, Wire: e.String(),
 		Nontrivial: issuances >= 1 && len(in.Steps) >= 2, Key: string(key)})
 }
@@ -290,13 +325,23 @@ func c06Run(tier string, seed int64, outdir string, replay string) error {
 	for _, in := range c06Corpus() {
 		c06RunCase(w, in, "corpus")
 	}
+	// the same corpus, and a share of the random histories, on the real FileStorage (real files, real
+	// Safe() file names on a real file system, FileStorage's own locks)
+	for _, in := range c06Corpus() {
+		in.Backend = "filestorage"
+		c06RunCase(w, in, "corpus-fs")
+	}
 	n := 700
 	if tier == "thorough" {
 		n = 12000
 	}
 	r := rand.New(rand.NewSource(seed))
 	for i := 0; i < n; i++ {
-		c06RunCase(w, c06Random(r, true, tier == "thorough"), "random")
+		in := c06Random(r, true, tier == "thorough")
+		if i%8 == 7 {
+			in.Backend = "filestorage"
+		}
+		c06RunCase(w, in, "random")
 	}
 	canonNote := emit.OracleCheck{Name: "canonical names: Safe(idna(name)) = Safe(name) for every canonical subject used (model's [canon])", OK: len(w.Meta.Notes) == 0}
 	if !canonNote.OK {
